@@ -7,6 +7,20 @@ def gen(runname, compl, basis=None, seed=1234, search_tmax=60, expand_tmax=1):
         os.environ["ESR_VERIF"] = "1"
         os.environ["ESR_VERIF_BASIS"] = json.dumps(basis)
     import esr.generation.duplicate_checker as dc
+    rec = os.environ.get("ESR_VERIF_ROUNDS")
+    if rec:
+        # record the full function list at the start of every deduplication round (and after the last one): do_sympy and
+        # duplicate_checker.main look utils.get_unique_indexes up at call time, so wrapping the module attribute observes them
+        import esr.generation.utils as U
+        from mpi4py import MPI
+        orig = U.get_unique_indexes
+        if MPI.COMM_WORLD.Get_rank() == 0 and not getattr(orig, "_verif", False):
+            def wrapped(L):
+                with open(rec, "a") as f:
+                    f.write(json.dumps(list(L)) + "\n")
+                return orig(L)
+            wrapped._verif = True
+            U.get_unique_indexes = wrapped
     dc.main(runname, compl, search_tmax=search_tmax, expand_tmax=expand_tmax, seed=seed)
 
 
